@@ -347,3 +347,31 @@ def check(case):
                 case.close(smp, rows, rtol=1e-12, what='pooled samples equal vartheta_i')
             if base['kind'] in ('lognorm', 'trunc') and base.get('centered', True):
                 case.true(bool(np.all(smp > 0)), 'sample outside the support')
+
+    # Two covariate models are built from ONE population-model object of the user; the second one and the user's
+    # object are reconfigured afterwards: the first model keeps its names, counts and values.
+    with case.clause('shared_base'):
+        shared = ref.build_pop(base, None, n_ids)
+        shared.set_n_ids(n_ids)
+        A = chi.CovariatePopulationModel(shared, chi.LinearCovariateModel(n_cov=n_cov))
+        if pop.get('sel') is not None:
+            A.set_population_parameters([list(p) for p in pop['sel']])
+        A.set_n_ids(n_ids)
+        before = (list(A.get_parameter_names()), int(A.n_parameters()), list(A.get_dim_names()),
+                  A.compute_log_likelihood(theta.copy(), x.copy(), cov.copy()),
+                  np.array(A.compute_individual_parameters(theta.copy(), x.copy(), cov.copy()), dtype=float))
+        B = chi.CovariatePopulationModel(shared, chi.LinearCovariateModel(n_cov=n_cov),
+                                         dim_names=['other %d' % d for d in range(n_dim)])
+        B.set_n_ids(n_ids + 2)
+        shared.set_dim_names(['user %d' % d for d in range(n_dim)])
+        shared.set_n_ids(n_ids + 1)
+        after = (list(A.get_parameter_names()), int(A.n_parameters()), list(A.get_dim_names()),
+                 A.compute_log_likelihood(theta.copy(), x.copy(), cov.copy()),
+                 np.array(A.compute_individual_parameters(theta.copy(), x.copy(), cov.copy()), dtype=float))
+        for nm, a, b in zip(('parameter names', 'n_parameters', 'dimension names'), before[:3], after[:3]):
+            case.equal(b, a, '%s of the first model after a sibling built from the same population-model object (and '
+                             'that object) were reconfigured' % nm)
+        case.close(after[3], before[3], rtol=0, atol=0, what='log-likelihood of the first model after its sibling was '
+                                                             'reconfigured')
+        case.close(after[4], before[4], rtol=0, atol=0, what='individual parameters of the first model after its '
+                                                             'sibling was reconfigured')
